@@ -110,6 +110,18 @@ pub fn machines(opts: &Opts) -> Vec<MCfg> {
             m.seeds = vec![0];
             m.update_slots = vec![0, 1];
             out.push(m);
+            // operations whose derivative closures own data computed at forward time (cached exponentials,
+            // cached sigmoid values, the collapsed dimensions of a sum): repeated passes with non-unit
+            // adjoints must leave that data as it was
+            let small = vec![
+                LeafSpec { dims: vec![2], vals: vec![0.5 + 0.25 * var as f64, -1.0], tracked: true },
+                LeafSpec { dims: vec![2], vals: vec![1.5, 0.25], tracked: true },
+                LeafSpec { dims: vec![2], vals: vec![-0.5, 2.0], tracked: false },
+            ];
+            let mut m = base_cfg("N2P2C1/closure-owned-data", small, vec![OpK::Exp, OpK::Sigmoid, OpK::Scale(3.0), OpK::Sum(1)], 5);
+            m.bounds = Bounds { builds: 2, passes: 2, clears: 1, depth: 5, ..Bounds::default() };
+            m.seeds = vec![0, 1];
+            out.push(m);
             // handles cloned, flagged and dropped between passes
             let two: Vec<LeafSpec> = same_shape_leaves(var).into_iter().take(2).collect();
             let mut m = base_cfg("N1P2F2K1D1/handles-between-passes", two, vec![OpK::Mul], 4);
@@ -120,6 +132,16 @@ pub fn machines(opts: &Opts) -> Vec<MCfg> {
             out.push(m);
         }
         Tier::Thorough => {
+            // closures that own forward-time data, three passes, products and softmax too
+            let small = vec![
+                LeafSpec { dims: vec![2], vals: vec![0.5 + 0.25 * var as f64, -1.0], tracked: true },
+                LeafSpec { dims: vec![2], vals: vec![1.5, 0.25], tracked: true },
+                LeafSpec { dims: vec![2], vals: vec![-0.5, 2.0], tracked: false },
+            ];
+            let mut m = base_cfg("N2P3C1/closure-owned-data", small, vec![OpK::Exp, OpK::Sigmoid, OpK::Scale(3.0), OpK::Mul, OpK::Sum(1), OpK::Softmax], 5);
+            m.bounds = Bounds { builds: 2, passes: 3, clears: 1, depth: 5, ..Bounds::default() };
+            m.seeds = vec![0, 1];
+            out.push(m);
             let mut m = base_cfg("N3P2C1/core", same_shape_leaves(var), core.clone(), 6);
             m.bounds = b(3, 2, 1, 0, 6);
             m.seeds = vec![0];
